@@ -15,6 +15,9 @@ type ExchangeJSightSchema struct {
 	*jschema.JSchema
 
 	onceCompile            sync.Once
+	onceExample            sync.Once
+	example                []byte
+	exampleErr             error
 	catalogUserTypes       *UserTypes
 	disableExchangeExample bool
 
@@ -116,9 +119,16 @@ func (e *ExchangeJSightSchema) processAllOf(uut *StringSet) error {
 	return e.exchangeContent.processAllOf(uut, e.catalogUserTypes)
 }
 
+// Example returns the example of the schema. It is built once: building it again
+// would draw new values from the generators of the regex types it refers to, and
+// every serialisation of the same catalog would carry another example.
 func (e *ExchangeJSightSchema) Example() ([]byte, error) {
-	// TODO once
-	return e.JSchema.Example()
+	e.onceExample.Do(func() {
+		ex, err := e.JSchema.Example()
+		// a copy: the schema library hands out a buffer that it uses again
+		e.example, e.exampleErr = append([]byte(nil), ex...), err
+	})
+	return e.example, e.exampleErr
 }
 
 func (e *ExchangeJSightSchema) MarshalJSON() ([]byte, error) {
